@@ -435,6 +435,9 @@ def run(chk):
     chk.cov['b2_traces_judged'] = len(b2_traces)
     b3 = run_b3(chk)
     selfcheck_monitor(b3 + b2_traces, chk)
+    # the budget must also close at every step of a power sweep (transmission flow: redesign per step, Transmission.tla)
+    from harness import sweep
+    sweep.run(chk)
     chk.cov['tolerance_trace_udb'] = dict(TolEq=10, TolRep=100, TieZone=1000)
     chk.cov['worst_deviation_trace_udb'] = measured_deviations(b3 + b2_traces)
     chk.cov['rule'] = ('B2: one case = one (configuration, OMS profile) design emitted by TLC (mode x range x slope x ROADM '
@@ -452,6 +455,8 @@ def run(chk):
     chk.assume('DesignLoadReproduces: channel-average powers per design band; the design comb is the one '
                'create_input_spectral_information builds for the band at the reference power; OMS without a transceiver on '
                'the ingress ROADM are designed and judged but not propagated')
+    chk.assume('power sweep (B3|sweep): lines of 1-4 fibre spans between ROADMs, shipped library, no Raman, no VOA; the budget '
+               'closes within 0.3 dB (noise accumulated on the line; worst measured 0.03 dB)')
     chk.assume('B2 library: two fixed-gain models (no NF subtlety), Raman off, 10 channels at 0 dBm, padding 10 dB, '
                'EOL 0.5 dB, connectors 0.25 dB')
 
@@ -499,6 +504,15 @@ def _mut_clamp_low_only():       # the upper bound of delta_power_range is not a
     _patch_source('target_power', 'dp = min(dp_range[1], dp)', 'dp = dp')
 
 
-MUTANTS = {'round_floor': _mut_round_floor, 'voa_sign': _mut_voa_sign, 'sat_per_channel': _mut_sat_per_channel,
+def _mut_sweep_stale_zero():      # the 0 dB step of a power sweep is propagated on the previous step's design
+    import gnpy.tools.worker_utils as W
+    src = inspect.getsource(W.transmission_simulation)
+    old = 'if len(power_range) > 1:'
+    if src.count(old) != 1:
+        raise Machinery('mutant: fragment not found in transmission_simulation')
+    exec(compile(src.replace(old, 'if len(power_range) > 1 and dp_db != 0:'), '<mutant sweep>', 'exec'), W.__dict__)
+
+
+MUTANTS = {'sweep_stale_zero': _mut_sweep_stale_zero, 'round_floor': _mut_round_floor, 'voa_sign': _mut_voa_sign, 'sat_per_channel': _mut_sat_per_channel,
            'prev_voa_dropped': _mut_prev_voa_dropped, 'roadm_target_ignored': _mut_roadm_target_ignored,
            'reduce_with_margin': _mut_reduce_with_margin, 'clamp_low_only': _mut_clamp_low_only}
